@@ -277,8 +277,26 @@ func evalValue(j *job, v uint64, trace *[]string) (fails []failure, constructs i
 		for _, f := range checkExportsPrefixed {
 			fails = append(fails, failure{f.fn, f.failure, how + ": " + f.detail})
 		}
+		before, berr := infoOf(n)
 		text, err := n.ExportString(nil)
 		say("  [%s] ExportString -> %q err=%v", how, text, err)
+		// exporting is an observation: the number must be the same number afterwards (same type, width, bits and
+		// storage) and every other export must still give what it gave before the text export
+		if after, aerr := infoOf(n); berr == nil && (aerr != nil || after != before) {
+			add("purity", "number-changed-by-ExportString", fmt.Sprintf("before %+v, after %+v (%v)", before, after, aerr))
+		}
+		had := map[failure]bool{}
+		for _, f := range checkExportsPrefixed {
+			had[f] = true
+		}
+		again := []failure{}
+		checkExports(n, j.bits, v, &again)
+		for _, f := range again {
+			if !had[f] {
+				add("purity", "export-differs-after-ExportString", f.fn+"/"+f.failure+": "+f.detail)
+				break
+			}
+		}
 		if err != nil {
 			add("roundtrip", "export-error", err.Error())
 			return
